@@ -42,11 +42,12 @@ var cmdOptions = map[string][]string{
 var advAlphabet = []string{"", "-1", "0", "1", "2", "9223372036854775807", "-9223372036854775808", "9223372036854775808", "1e309", "nan", "inf", "-inf",
 	"(", "*", "[", "\\", "[a-", "3.5", " 1", "0x10", "1-1", "0-0", "5-*", "\r\n", "\x00"}
 
-var typedKeys = []string{"ks", "kl", "kh", "kS", "kz", "kx", "kmissing"}
+// (kxe: a stream that exists but was trimmed to no entries)
+var typedKeys = []string{"ks", "kl", "kh", "kS", "kz", "kx", "kmissing", "kxe"}
 
 func c04Preload() [][]B {
 	return [][]B{bs("set", "ks", "hello"), bs("rpush", "kl", "a", "b", "c"), bs("hset", "kh", "f", "v", "n", "5"), bs("sadd", "kS", "m1", "m2"),
-		bs("zadd", "kz", "1", "a", "2", "b", "2", "c"), bs("xadd", "kx", "1-1", "f", "v")}
+		bs("zadd", "kz", "1", "a", "2", "b", "2", "c"), bs("xadd", "kx", "1-1", "f", "v"), bs("xadd", "kxe", "maxlen", "0", "7-1", "f", "v")}
 }
 
 func mixCase(r *core.Rand, s string) string {
@@ -201,6 +202,10 @@ var c04Templates = [][]string{
 	{"rconf", "add", "4", "http://127.0.0.1:1"},
 	{"member", "list"},
 	{"keys", "k[a-z]*"},
+	{"xadd", "kxe", "9-1", "f", "v"},
+	{"xadd", "kxe", "minid", "5", "*", "f", "v"},
+	{"xadd", "kx", "maxlen", "0", "*", "f", "v"},
+	{"xrange", "kxe", "-", "+"},
 }
 
 // c04FromTemplate derives the run's systematic input: template t cut to a
